@@ -163,33 +163,43 @@ with scoped_acts (l : acts) : bool :=
 (** The entry points of the four features in the checker / CFG builder, written down from
     reading what each feature *is* (a list literal in checking and in synthesis mode, a
     list comprehension, the type `list[...]`; a call whose callee is a tuple of functions,
-    in both modes; a nested function that captures a variable; a `with` statement).
-    [guard]: a text that must occur in the innermost condition guarding the gate call
-    ("" = the gate is unconditional in the function body). *)
-Record req := mkReq { r_feature : feature; r_file : string; r_qual : string; r_guard : string }.
+    in both modes; a nested function that captures a variable; a `with` statement), and
+    the exact condition under which the gate must be called there:
+      ""                   unconditionally in the function body
+      "function_tensor"    the callee's type is a tuple that parses as a function tensor
+      "captures_nonempty"  the nested function captures at least one variable: the guard is
+                           the truth value of the very set of captured variables that the
+                           checked definition records (live at the nested function's entry,
+                           not its own parameters, locals of the enclosing scope) — nothing
+                           narrower (the generator classifies the guard; GenSites.v).
+    [r_outer]: the enclosing conditions (else-branches of earlier type dispatch), exact. *)
+Record req := mkReq { r_feature : feature; r_file : string; r_qual : string; r_kind : string; r_outer : list string }.
 Definition required_sites : list req := [
-  mkReq Lists "checker/expr_checker.py" "ExprChecker.visit_List" "";
-  mkReq Lists "checker/expr_checker.py" "ExprSynthesizer.visit_List" "";
-  mkReq Lists "cfg/builder.py" "ExprBuilder.visit_ListComp" "";
-  mkReq Lists "tys/builtin.py" "_ListTypeDef.check_instantiate" "";
-  mkReq FunctionTensors "checker/expr_checker.py" "ExprChecker.visit_Call" "parse_function_tensor";
-  mkReq FunctionTensors "checker/expr_checker.py" "ExprSynthesizer.visit_Call" "parse_function_tensor";
-  mkReq CapturingClosures "checker/func_checker.py" "check_nested_func_def" "captured";
-  mkReq Modifiers "cfg/builder.py" "CFGBuilder.visit_With" ""
+  mkReq Lists "checker/expr_checker.py" "ExprChecker.visit_List" "" [];
+  mkReq Lists "checker/expr_checker.py" "ExprSynthesizer.visit_List" "" [];
+  mkReq Lists "cfg/builder.py" "ExprBuilder.visit_ListComp" "" [];
+  mkReq Lists "tys/builtin.py" "_ListTypeDef.check_instantiate" "" [];
+  mkReq FunctionTensors "checker/expr_checker.py" "ExprChecker.visit_Call" "function_tensor" [];
+  mkReq FunctionTensors "checker/expr_checker.py" "ExprSynthesizer.visit_Call" "function_tensor"
+        ["not (isinstance(ty, FunctionType))"];
+  mkReq CapturingClosures "checker/func_checker.py" "check_nested_func_def" "captures_nonempty" [];
+  mkReq Modifiers "cfg/builder.py" "CFGBuilder.visit_With" "" []
 ]%string.
 
 Definition gate_eqb (a b : gate) : bool := Z.eqb (gate_index a) (gate_index b).
+Fixpoint strs_eqb (a b : list string) : bool :=
+  match a, b with
+  | [], [] => true
+  | x :: a', y :: b' => String.eqb x y && strs_eqb a' b'
+  | _, _ => false
+  end.
 
 (** a generated site satisfies a requirement: same function, the feature's gate, nothing
-    but plain assignments before the call in its block, and the expected guard *)
+    but plain assignments before the call in its block, exactly the required condition *)
 Definition site_meets (r : req) (s : site) : bool :=
   String.eqb (r_file r) (s_file s) && String.eqb (r_qual r) (s_qual s)
   && gate_eqb (s_gate s) (feature_gate (r_feature r))
   && forallb (String.eqb "Assign") (s_pre s)
-  && match r_guard r, rev (s_guards s) with
-     | EmptyString, [] => true
-     | EmptyString, _ :: _ => false
-     | _, [] => false
-     | g, inner :: _ => contains g inner && negb (prefix "not (" inner)
-     end.
+  && String.eqb (r_kind r) (s_kind s)
+  && strs_eqb (r_outer r) (removelast (s_guards s)).
 Definition req_met (r : req) : bool := existsb (site_meets r) gate_sites.
